@@ -351,12 +351,14 @@ def freq_shift(z, /, shift):
 
     it = np.nditer(ft * len(x), flags=["multi_index"])
     for a in it:
+        # A shift given along a length-1 (broadcast) axis applies to the whole axis
+        bix = tuple(i if n > 1 else slice(None) for i, n in zip(it.multi_index, ft.shape))
         if a < 0:
             a = int(np.floor(a))
-            ix = (np.s_[a:],) + it.multi_index
+            ix = (np.s_[a:],) + bix
         else:
             a = int(np.ceil(a))
-            ix = (np.s_[:a],) + it.multi_index
+            ix = (np.s_[:a],) + bix
 
         x[ix] = 0
 
